@@ -5,6 +5,7 @@ C18.flags   the 16 flag vectors evaluate to core + control + encryption group + 
 C18.wire    _construct wires upper/lower in order; tuples become groups; non-layers rejected
 C18.mirror  emit/broadcast siblings are mirror images modulo upper<->lower
 C18.stop    continuation guarded by the negated onEvent result; detached events deferred once; loop drains
+C18.state   the event-callback table of a layer is a fresh per-instance object (not taken from class-level state)
 C18.par     the parallel group substitutes the four routing methods and finds interfaces by class
 """
 import ast
@@ -163,6 +164,15 @@ def rule_composition(ctx, rule):
     if not probs:
         ctx.hold(rule, where(YS, "YowStackBuilder", None), "published and built compositions", "%d compositions: no layer class twice, helpers leave their constants alone" % n)
     return not probs
+
+
+def rule_state(ctx):
+    """event callback tables, locks and neighbour links are per layer instance"""
+    from ..state import per_instance_state
+    n = 0
+    for cn in ("YowLayer", "YowParallelLayer"):
+        n += per_instance_state(ctx, "C18.state", ctx.repo.cls(LAYERS, cn))
+    ctx.units["C18.state_attrs"] = n
 
 
 def rule_wire(ctx):
@@ -484,6 +494,7 @@ def run(ctx):
     ctx.rule("C18.mirror", "emit/broadcast siblings mirror each other", floor=4)
     ctx.rule("C18.stop", "stop-on-true, detached deferral, loop", floor=10)
     ctx.rule("C18.par", "group method substitution and interface lookup", floor=8)
+    ctx.rule("C18.state", "event-callback tables (every attribute a layer mutates in place) are bound per instance to a fresh object", floor=1)
     ctx.guarded("C18.bind", rule_bind, ctx)
     ctx.guarded("C18.composition", rule_composition, ctx, "C18.flags")
     ctx.guarded("C18.flags", rule_flags, ctx)
@@ -491,3 +502,4 @@ def run(ctx):
     ctx.guarded("C18.mirror", rule_mirror, ctx)
     ctx.guarded("C18.stop", rule_stop, ctx)
     ctx.guarded("C18.par", rule_par, ctx)
+    ctx.guarded("C18.state", rule_state, ctx)
